@@ -34,6 +34,16 @@ CLAIMED['C16'] = (
     'reference model of the documented rule (highest priority, latest wins, matching by own criteria); histories '
     'longer than the bound are outside the claim (state = ordered registration list + cache, argued not proved)',
     'symbolic execution of the real code (CrossHair primitives + z3) over operation histories, path-tree exhaustion, concrete replay')
+CLAIMED['C18'] = (
+    'Bounded symbolic model checking of RuntimeContext depth accounting through the real data-class / container / union '
+    'parsers: max_depth m and the input depth d are solver integers, the position of the nested value at every level '
+    '(list/tuple index, mapping key as a symbolic string including the empty key, union branch, plain field) is chosen by '
+    'the solver, and accepted <=> d <= m is asserted on every path of the exhausted tree; cyclic inputs of length 1..3 '
+    'over every route must be rejected with a depth error. Cost: a counting leaf converter measures work for solver-chosen '
+    'depth/validity/width and is compared with a stated polynomial bound (depth <= 6, 8 thorough).',
+    'depth exactness is proved within the bounds; the cost clause is checked up to the stated depth only (growth beyond it '
+    'is extrapolated); known finding K-C18-union-stage-retry-exponential is reported, not hidden',
+    'symbolic execution of the real code (CrossHair primitives + z3), path-tree exhaustion, concrete replay')
 NOT_APPLICABLE = {}
 
 def main():
